@@ -120,6 +120,12 @@ def export_shapes():
            ("Equals", ("Select", ("Array", ("type", INT), x, ("dict", (L(3, INT), y), (L(-1, INT), ("Plus", x, y)))), z), x),
            ("Equals", ("Array", ("type", B4), L(0, B8), ("dict", (L(1, B4), L(255, B8)), (L(15, B4), S("w8", B8)))), abv),
            ("Select", ("Array", ("type", INT), L(False, BOOL), ("dict", (L(10, INT), a), (L(2, INT), ("Or", a, b)))), x)]
+    # sorts that occur on bound variables only, or only as the index sort of a constant array
+    SB, SC, PB_ = ("CUSTOM", "Sb"), ("CUSTOM", "Sc"), ("CUSTOM", "PairB", (INT, ("CUSTOM", "Sb")))
+    sh += [("exists", [("xb", SB), ("yb", SB)], ("Not", ("Equals", S("xb", SB), S("yb", SB)))),
+           ("forall", [("pb", PB_)], ("exists", [("qb", PB_)], ("Equals", S("pb", PB_), S("qb", PB_)))),
+           ("Not", ("Equals", ("Array", ("type", SC), L(0, INT)), ("Array", ("type", SC), L(1, INT)))),
+           ("And", a, ("forall", [("zc", SC)], ("Equals", ("Select", ("Array", ("type", SC), x), S("zc", SC)), x)))]
     # binders whose variable order is not the order in which the variables were created
     sh += [("And", ("LT", x, y), ("forall", [("y", INT), ("x", INT)], ("LT", ("Plus", x, y), L(3, INT)))),
            ("Or", ("LT", x, ("Plus", y, S("z", INT))), ("exists", [("z", INT), ("x", INT), ("y", INT)], ("LT", ("Plus", x, y), S("z", INT)))),
@@ -372,6 +378,10 @@ def import_corpus():
     add("define-fun-scoped-redefinition-arity", D + "(push 1)(define-fun g ((t Int)) Int (+ t 1))(assert (> (g x) 0))(pop 1)"
         "(define-fun g ((t Int) (s Int)) Int (- t s))(assert (> (g x y) 0))")
     add("define-fun-constant-redefinition", D + "(push 1)(define-fun k () Int 10)(assert (< x k))(pop 1)(define-fun k () Int 20)(assert (< y k))")
+    add("redeclare-after-pop", "(declare-fun a () Bool)(push 1)(declare-fun k () Int)(assert (< k 1))(pop 1)(declare-fun k () Int)(assert (and a (< k 2)))")
+    add("redeclare-sort-after-pop", "(push 1)(declare-sort U2 0)(declare-fun e () U2)(assert (= e e))(pop 1)(declare-sort U2 0)(declare-fun e () U2)"
+        "(assert (not (= e e)))")
+    add("redeclare-const-after-pop-2", "(declare-fun a () Bool)(push 1)(declare-const k Int)(push 1)(assert (< k 1))(pop 1)(assert (< k 3))(pop 1)(declare-const k Int)(assert (< k 2))")
     add("define-fun-nested", D + "(define-fun g ((t Int)) Int (+ t 1))(define-fun g2 ((t Int)) Int (g (g t)))(assert (= (g2 x) y))")
     add("define-fun-bool", D + "(define-fun both ((p Bool) (q Bool)) Bool (and p q))(assert (both a (both b c)))")
     add("define-fun-quoted-params", D + "(define-fun g ((|a b| Int) (|c d| Bool)) Int (ite |c d| |a b| x))(assert (= (g y a) z))")
@@ -621,6 +631,38 @@ def _import_job(job):
             out["again"] = (verdict[0], "%s: %s" % (form, verdict[1]))
             break
         out["again"] = verdict
+    out["reexport"] = None
+
+    def _reexport():
+        # the re-serialised text is SMT-LIB in its own right: read by the independent reader (which, unlike pySMT's parser,
+        # forgets declarations at a pop) it is well-formed and has the same live assertions as the original
+        if ref is not None and ref_text is text:
+            for form, again in zip(("tree form", "let-DAG form"), agains):
+                if again[0] != "ok" or not isinstance(again[1], str):
+                    continue
+                try:
+                    ref2 = refsmt.read_script(again[1])
+                except refsmt.SmtError as e:
+                    if e.unsupported:
+                        out["reexport"] = ("unsupported", str(e))
+                    else:
+                        out["reexport"] = ("invalid", "%s: the re-serialised script is not well-formed SMT-LIB: %s [text: %s]"
+                                           % (form, e, again[1].replace("\n", " ")[:260]))
+                    break
+                l1, l2 = ref.live_assertions(), ref2.live_assertions()
+                bad = None
+                if len(l1) != len(l2):
+                    bad = "%d live assertions, the original has %d" % (len(l2), len(l1))
+                else:
+                    for t1_, t2_ in zip(l1, l2):
+                        ok_, why_ = textsem.equivalent(t1_, t2_)
+                        if ok_ is False:
+                            bad = "assertion %s is written as %s" % (refsmt.term_str(t1_), refsmt.term_str(t2_))
+                            break
+                if bad:
+                    out["reexport"] = ("invalid", "%s: %s" % (form, bad))
+                    break
+                out["reexport"] = ("valid", "well-formed, %d live assertions as in the original" % len(l1))
     if ref is None:
         if ref_err.unsupported:
             out["kind"] = "unsupported"
@@ -684,6 +726,8 @@ def _import_job(job):
         out["last"] = ("raises", str(last[1]))
     out["kind"] = "valid"
     out["detail"] = "%d assertions denote what the text denotes" % n_ok
+    if out["last"] is None or out["last"][0] == "valid":
+        _reexport()
     return out
 
 
